@@ -16,7 +16,9 @@ A layer over `Model/ExitRace.lean`. One *kid* = one actor with its own complete 
   `Tid.d`), `send_drain_marker` (fails only when the marker has to be enqueued and the mailbox
   receiver is gone); the error is propagated;
 * the join handle of `Actor::spawn` / of the thread-local spawner (`form = join`): completes when
-  the actor's task has returned, i.e. after the last statement of the exit sequence.
+  the actor's task has returned, i.e. after the last statement of the exit sequence. `Res.ok` then
+  means "the handle completed" — with `Ok(())`, or with `Err(JoinError::Panic)` when a statement of
+  `cleanup` panicked (`Exiter.unwound`); C06 claims the full stop for either.
 
 Each form is: a *send step that may fail*, then the `wait()` sub-machine of `ExitRace` (create
 `Notified`, read the status, await), which a *timeout* may abandon: `tokio::time::timeout` polls the
@@ -130,6 +132,9 @@ inductive XTid where
   /-- somebody else's `stop()` / `kill()` on kid `k` -/
   | stop (k : Nat)
   | kill (k : Nat)
+  /-- somebody else's `drain()` on kid `k` reaches `send_drain_marker` (its status `fetch_update` is
+  the base step `Tid.d`) -/
+  | mark (k : Nat)
   /-- wrapper `i`: `join_next` finds the set empty -/
   | wrap (i : Nat)
   deriving DecidableEq, Repr, Inhabited
@@ -196,6 +201,10 @@ def xstep (x : X) : XTid → X
     match x.kids[k]? with
     | none => x
     | some kid => { x with kids := x.kids.set k { kid with ports := { kid.ports with signal := false } } }
+  | .mark k =>
+    match x.kids[k]? with
+    | none => x
+    | some kid => { x with kids := x.kids.set k { kid with ports := { kid.ports with marker := true } } }
   | .call j =>
     match x.callers[j]? with
     | none => x
